@@ -6,7 +6,8 @@
 From Coq Require Import List NArith ZArith Bool String.
 From RecordUpdate Require Import RecordSet.
 From MV Require Import Bytes CredModel CredProofs RetryModel RetryProofs.
-From MV.gen Require Import GenCred.
+From MV Require Import ReplayModel RetryReplay RetryClientModel RetryClientProofs RetryWire.
+From MV.gen Require Import GenCred GenRetryLoop.
 Import ListNotations.
 Local Open Scope N_scope.
 
@@ -84,6 +85,136 @@ Print Assumptions C13_decode_is_retry_independent.
 Print Assumptions C13_encode_is_retry_independent.
 Print Assumptions C13_encode_retry_exceeded_issues_nothing.
 
+(* ---------------------------------------------------------------------------------------------------------------
+   The roll-back on the real data structure.  ReplayModel is hash.c's chained table with replay.c's callbacks; the
+   slot function is arbitrary, so the statements hold for every collision pattern, and the table is any table hash.c
+   can have built (rinv): EVERY prior contents of the replay cache.
+   --------------------------------------------------------------------------------------------------------------- *)
+
+(* a first decode whose reply cannot be sent: replay_insert creates the record, replay_remove finds it wherever in its
+   bucket chain it was linked (before the head, between two nodes, after the tail) and gives back exactly the table that
+   was there before: same chains in the same order, same count *)
+Theorem C13_rollback_restores_cache : forall (slot_of : (bytes * N)%type -> nat) (nslots : nat), slots_ok slot_of nslots ->
+  forall (t : rtable) (k : (bytes * N)%type), rinv slot_of nslots t -> ~ In k (abs t) ->
+  fst (replay_insert slot_of k t) = Inserted /\
+  replay_remove slot_of k (snd (replay_insert slot_of k t)) = (true, t).
+Proof. exact rollback_restores_table. Qed.
+
+(* ... also when, between that decode and its roll-back, the daemon serves any history h of other work (decodes of other
+   credentials - accepted, replayed or failed -, roll-backs of other credentials, purges, clock ticks): every answer
+   given in h is the one it would have been, and the final state is exactly the state h alone leads to *)
+Theorem C13_rollback_leaves_no_trace : forall (slot_of : (bytes * N)%type -> nat) (nslots : nat), slots_ok slot_of nslots ->
+  forall (st : ReplayModel.rstate) (k : (bytes * N)%type) (h : list event),
+  rinv slot_of nslots (tbl st) -> ~ In k (abs (tbl st)) ->
+  forallb (fun e => negb (about k e)) h = true ->
+  final slot_of st (EPresent k :: h ++ [ERemove k]) = final slot_of st h /\
+  map visible (snd (run slot_of (fst (step slot_of st (EPresent k))) h)) = map visible (snd (run slot_of st h)).
+Proof. exact rollback_leaves_no_trace. Qed.
+
+(* a retried decode (retry 1..5) let through on the record of its lost first attempt, whose reply cannot be sent either:
+   exactly that record goes, every other record stays *)
+Theorem C13_retried_rollback_removes_only_it : forall (slot_of : (bytes * N)%type -> nat) (nslots : nat), slots_ok slot_of nslots ->
+  forall (t : rtable) (k : (bytes * N)%type), rinv slot_of nslots t -> In k (abs t) ->
+  replay_insert slot_of k t = (AlreadyExists, t) /\ fst (replay_remove slot_of k t) = true /\
+  rinv slot_of nslots (snd (replay_remove slot_of k t)) /\
+  ~ In k (abs (snd (replay_remove slot_of k t))) /\ count (snd (replay_remove slot_of k t)) + 1 = count t /\
+  forall x, x <> k -> (In x (abs (snd (replay_remove slot_of k t))) <-> In x (abs t)).
+Proof. exact retried_rollback_removes_only_it. Qed.
+Print Assumptions C13_rollback_restores_cache.
+Print Assumptions C13_rollback_leaves_no_trace.
+Print Assumptions C13_retried_rollback_removes_only_it.
+
+(* ---------------------------------------------------------------------------------------------------------------
+   The client's transaction loop with the state of each attempt explicit.  `src_xfer` is m_msg_client_xfer as
+   translated from the source text on this run (gen/GenRetryLoop.v), interpreted by RetryClientModel.xfer over an
+   explicit heap of messages, their socket fields, the set of open sockets and the pointer variables mreq / mrsp.
+   A fault list says how each successive attempt breaks, seen from the client: FConnect (refused), FSend (while the
+   request is being written), FRecv (after the request was written: request cut on the way, reply cut at any byte,
+   reply never sent).  Every ORDER of these, up to MUNGE_SOCKET_RETRY_ATTEMPTS entries.
+   --------------------------------------------------------------------------------------------------------------- *)
+Local Close Scope N_scope.
+
+(* no state of attempt n is visible in attempt n+1: whatever broke before, an attempt starts with mrsp = NULL, the
+   request not connected, the request as the only allocated message, no open socket, and only the two counters
+   (attempt number, retry field) telling it apart from the first attempt; nothing undefined ever happens (no message is
+   used or freed after it was freed, no socket closed twice, no assert fails, the loop ends); when the function returns
+   exactly one message is allocated and it is the one handed to the caller; after the caller has destroyed it no
+   message and no socket is left *)
+Theorem C13_attempts_are_isolated : forall faults : list phase,
+  List.length faults <= q_attempts src_xconst ->
+  let r := xfer src_xconst src_xfer faults in
+  r_bad r = None /\
+  r_heads r = map fresh_head (seq 0 (List.length (r_heads r))) /\
+  map PMsg (r_live_at_return r) = [r_pm r] /\
+  r_live_end r = [] /\ r_open_end r = [].
+Proof. exact xfer_safe_and_isolated. Qed.
+
+(* up to four broken connections of any kinds in any order, then a clean attempt: success; the requests on the wire
+   were the same message with retry = 0, 1, ..., n on n+1 different connections; exactly one complete reply was
+   received, on the last connection, and that reply object is what the caller gets; the back-off was 10, 20, ... ms *)
+Theorem C13_client_masks_faults : forall faults : list phase,
+  no_connect_fault faults = true -> List.length faults < q_attempts src_xconst ->
+  let r := xfer src_xconst src_xfer faults in let n := List.length faults in
+  r_err r = EOk /\
+  sends (r_trace r) = expected_sends faults (S n) /\
+  map (fun d => PMsg (fst d)) (delivered (r_trace r)) = [r_pm r] /\ map snd (delivered (r_trace r)) = [S n] /\
+  sleeps (r_trace r) = linear_backoff n /\ List.length (r_heads r) = S n.
+Proof. exact xfer_masks_faults. Qed.
+
+(* five broken attempts: a socket error, and no reply was ever received completely (never a wrong or partial result) *)
+Theorem C13_client_exhausted : forall faults : list phase,
+  no_connect_fault faults = true -> List.length faults = q_attempts src_xconst ->
+  let r := xfer src_xconst src_xfer faults in
+  r_err r = ESocket /\ delivered (r_trace r) = [] /\
+  sends (r_trace r) = expected_sends faults (q_attempts src_xconst) /\ List.length (r_heads r) = q_attempts src_xconst /\
+  sleeps (r_trace r) = linear_backoff (q_attempts src_xconst - 1).
+Proof. exact xfer_exhausted. Qed.
+
+(* a refused connect (after its own retries) ends the transaction with a socket error; the caller keeps its request *)
+Theorem C13_client_connect_refused : forall faults : list phase,
+  List.length faults <= q_attempts src_xconst -> no_connect_fault faults = false ->
+  let r := xfer src_xconst src_xfer faults in let n := List.length (before_connect faults) in
+  r_err r = ESocket /\ r_pm r = PMsg 0 /\ delivered (r_trace r) = [] /\
+  sends (r_trace r) = expected_sends faults n /\ List.length (r_heads r) = S n.
+Proof. exact xfer_connect_refused. Qed.
+
+(* the bound of the loop is the bound the daemon enforces on the retry counter (C13_retry_bounds) *)
+Theorem C13_client_bound_is_daemon_bound : q_attempts src_xconst = N.to_nat c_retry_attempts.
+Proof. exact attempts_is_the_daemons_bound. Qed.
+Print Assumptions C13_attempts_are_isolated.
+Print Assumptions C13_client_masks_faults.
+Print Assumptions C13_client_exhausted.
+Print Assumptions C13_client_connect_refused.
+Print Assumptions C13_client_bound_is_daemon_bound.
+
+(* both halves together.  A broken connection is one event on the wire and two different things to the two ends
+   (RetryWire.client_phase / daemon_fault): cut while the client writes, cut on the way, reply cut at a byte, reply not
+   sent.  For every order of up to four of them: the client makes exactly the attempts the daemon-side theorem assumes
+   (`masked`, spelled out in C13_client_masks_faults: success, retry = 0..n on n+1 connections, the reply of the last one)
+   without anything undefined or left behind (`safe_and_isolated`, spelled out in C13_attempts_are_isolated), and the reply
+   is the fault-free one with exactly one replay record (as in C13_retry_masks_faults) *)
+Section C13wire.
+Variable hmac : N -> bytes -> bytes -> bytes.
+Variable sha1 : bytes -> bytes.
+Variable blk_dec : N -> bytes -> bytes -> bytes.
+Variable zdecomp : N -> bytes -> N -> option bytes.
+Theorem C13_wire_faults_masked : forall cf mem cred pu pg now rs (ws : list wire),
+  cf_socket_retry cf = true -> List.length ws <= 4 ->
+  masked (map client_phase ws) /\ safe_and_isolated (map client_phase ws) /\
+  match dec_pre hmac sha1 blk_dec zdecomp cf mem (req cred 0) pu pg now with
+  | inl r0 =>
+      exists r, munge_decode_under_faults hmac sha1 blk_dec zdecomp cf mem cred pu pg now rs (map daemon_fault ws) = (rs, Some r)
+                /\ strip r = strip r0
+  | inr (m0, k) =>
+      r_mem k rs = false ->
+      exists r, munge_decode_under_faults hmac sha1 blk_dec zdecomp cf mem cred pu pg now rs (map daemon_fault ws) = (k :: rs, Some r)
+                /\ strip r = strip m0
+  end.
+Proof. exact (wire_faults_masked hmac sha1 blk_dec zdecomp). Qed.
+End C13wire.
+Print Assumptions C13_wire_faults_masked.
+Local Open Scope N_scope.
+
 (* non-vacuity (computed inside Coq with toy primitives): lost reply, failed send, cut request, lost reply, then a
    clean attempt -> success with the payload and exactly one record; five faults -> socket error *)
 Example C13_example_accept :
@@ -92,3 +223,11 @@ Proof. exact retry_example_accept. Qed.
 Example C13_example_exhausted :
   toy_view (toy_decode cf_std 5010 [RspLost; RspSendFailed; ReqCut; RspLost; ReqCut]) = None.
 Proof. exact retry_example_exhausted. Qed.
+
+(* the trace of one concrete order: reply cut, then request cut while being written, then clean *)
+Example C13_example_client_trace :
+  r_trace (xfer src_xconst src_xfer [FRecv; FSend]) =
+  [TNew 0; TConnect 1 true; TSend 0 0 1 true; TNew 1; TBind 1 1; TRecv 1 1 false; TDestroy 1; TClose 1; TSleep 10;
+   TConnect 2 true; TSend 0 1 2 false; TClose 2; TSleep 20;
+   TConnect 3 true; TSend 0 2 3 true; TNew 2; TBind 2 3; TRecv 2 3 true; TClose 3; TDestroy 0; TDestroy 2]%nat.
+Proof. exact client_example_trace. Qed.
